@@ -53,6 +53,10 @@ def worlds(tier: str, stats: Dict[str, Any], subset: Optional[str] = None) -> It
                 stats["transitions"] += 1
                 yield dict(program=[list(a) for a in p], profile=dict(prof, knames={"7": "<unnamed>", "9": "null"}), steps=False,
                            flag=i % 2, names="na-tokens")
+            if j == 1 and (i % 3 == 0):
+                # the same trace as rank 1 of a two-rank job whose rank 0 has a different event layout
+                stats["transitions"] += 1
+                yield dict(program=[list(a) for a in p], profile=prof, steps=False, flag=i % 2, as_rank1=True)
             if j == 0 and (i % 2 == 0):
                 # a second host thread holding a single leaf operator (a disconnected component of the graph)
                 for leaf in (200, 1):
@@ -96,10 +100,27 @@ def windows(world) -> List[Tuple[str, Any]]:
     return w
 
 
-def analyse(ta, annotation: str, instance, flag: int):
+RANK0_OTHER_LAYOUT = [("op", "aten::outer"), ("op", "aten::inner"), ("launch", 9), ("end",), ("launch", 7), ("end",), ("ssync", 7), ("dsync",)]
+
+
+def load(world):
+    """(ta, rank, rows_of_rank, time_shift): single-rank load, or the world as rank 1 next to a fixed rank 0"""
+    from mc import htaenv
+
+    evs = build(world)
+    if world.get("as_rank1"):
+        evs0 = gpusim.run(RANK0_OTHER_LAYOUT, PROFILES_QUICK[0])
+        ta, _ = htaenv.load_world({0: evs0, 1: evs})
+        m = min(r["ts"] for r in refmodel.parse_rows(evs0) + refmodel.parse_rows(evs))
+        return ta, 1, evs, m
+    ta, _ = htaenv.load_world({0: evs})
+    return ta, 0, evs, min(r["ts"] for r in refmodel.parse_rows(evs))
+
+
+def analyse(ta, annotation: str, instance, flag: int, rank: int = 0):
     os.environ["CRITICAL_PATH_ADD_ZERO_WEIGHT_LAUNCH_EDGE"] = "1" if flag else "0"
     try:
-        return ta.critical_path_analysis(rank=0, annotation=annotation, instance_id=instance)
+        return ta.critical_path_analysis(rank=rank, annotation=annotation, instance_id=instance)
     finally:
         os.environ.pop("CRITICAL_PATH_ADD_ZERO_WEIGHT_LAUNCH_EDGE", None)
 
@@ -129,11 +150,11 @@ def expected_window_ids(rows, m: int, annotation: str, instance, kept_ids) -> Op
     return host | dev
 
 
-def graphs_for(world, ta, windows_subset=None):
+def graphs_for(world, ta, windows_subset=None, rank: int = 0):
     """yield (ctx, graph) for every window / flag of the world on which the analysis succeeds"""
     for (ann, inst) in (windows_subset or windows(world)):
         for flag in ((world["flag"],) if ann else (0, 1)):
-            res = analyse(ta, ann, inst, flag)
+            res = analyse(ta, ann, inst, flag, rank)
             if res is None:
                 continue
             g, ok = res
